@@ -151,7 +151,9 @@ pub fn check(c: &Case, rec: &mut Rec) -> Result<(), String> {
                 total = stream.len() as u64;
                 // exactly N per completed frame; the instruction that crosses the frame end may
                 // already have produced the first samples of the next frame
-                let slack = 2 + n * 64 / frame_len;
+                // (it overshoots the boundary by the frame clock the machine now shows)
+                let over = e.verif_frame_clocks() as u64;
+                let slack = 1 + (over * n + frame_len - 1) / frame_len;
                 if total < (f + 1) * n || total > (f + 1) * n + slack {
                     return Err(format!(
                         "after {} frames drained at every frame boundary the host received {} samples; floor({}/50) = {} per frame gives {} (+{} for the instruction crossing the boundary)",
@@ -297,7 +299,7 @@ pub fn replay(run: &mut Run, phase: &str, case: &serde_json::Value) -> Result<()
 }
 
 pub const LEVEL: &str = "exploration";
-pub const RULE: &str = "case = machine x sample rate 8000..384000 (biased to 8000, 11025, 44100, 48000, 384000 and rates not divisible by 50) x volume 0..100 x beeper/AY enables x looping DI program of 0..30 (delay, OUT (0xFE),A with any value) segments incl. bursts faster than one sample and frames without any write x 1..6 frames x drain behaviour {all, never, part}. Drain-all: the cumulative number of samples after f frames must be f*floor(rate/50) (plus at most the few samples of the instruction that crosses the frame end); with only the beeper on, every sample must equal the level of a speaker/MIC state that was current within one sample period of its frame time k*T_frame/floor(rate/50) — the states and their times come from the reference machine's ULA write log, the four levels from calibration runs at the same settings; levels monotone in EAR then MIC, left = right, level at volume v = level at volume 100 * v/100, volume 0 exactly silent, everything finite. Never/partial drain: the queue stays below two frames' worth. non-trivial = judged run with >= 2 speaker writes at least two samples apart at a rate other than 44100 (or any never/partial-drain run); distinct = hash of the case";
+pub const RULE: &str = "case = machine x sample rate 8000..384000 (biased to 8000, 11025, 44100, 48000, 384000 and rates not divisible by 50) x volume 0..100 x beeper/AY enables x looping DI program of 0..30 (delay, OUT (0xFE),A with any value) segments incl. bursts faster than one sample and frames without any write x 1..6 frames x drain behaviour {all, never, part}. Drain-all: the cumulative number of samples after f frames must be f*floor(rate/50) (plus at most the samples that fall into the T-states by which the frame-crossing instruction overshoots the boundary, +1); with only the beeper on, every sample must equal the level of a speaker/MIC state that was current within one sample period of its frame time k*T_frame/floor(rate/50) — the states and their times come from the reference machine's ULA write log, the four levels from calibration runs at the same settings; levels monotone in EAR then MIC, left = right, level at volume v = level at volume 100 * v/100, volume 0 exactly silent, everything finite. Never/partial drain: the queue stays below two frames' worth. non-trivial = judged run with >= 2 speaker writes at least two samples apart at a rate other than 44100 (or any never/partial-drain run); distinct = hash of the case";
 pub const ASSUMPTIONS: &[&str] = &[
     "write timestamps from the reference machine (trusted through calibration, C03, C04)",
     "the absolute level constants are not assumed: they are measured on a calibration machine with the same settings",
